@@ -1,2 +1,140 @@
-(* statements land with the deep pass; see Proofs *)
-Require Import Model.Base.
+(* C02 — drawing never leaves the panel window, never panics, never fails; out-of-bounds input is
+   discarded. Statements only; proofs in Proofs/ClipP.v, Proofs/DrawP.v, Proofs/ProgramP.v.
+   Model of the tree after the fix: commit for F4 (draw_iter discards out-of-bounds pixels). *)
+Require Import Model.Base Model.Orient Model.Dcs Model.Events Model.Builder Model.Rect Model.Batch Model.Display.
+Require Import Oracle.Spec Oracle.Controller Oracle.DrawSpec.
+Require Import Proofs.DcsP Proofs.WindowP Proofs.CtlP Proofs.DrawP Proofs.ClipP Proofs.BatchP Proofs.OrientStateP
+               Proofs.ProgramP.
+Open Scope Z_scope.
+
+(* Any program of set_pixel(s) (in bounds), draw_iter (ARBITRARY i32 points), fill_contiguous /
+   fill_solid (ANY valid Rectangle), clear, set_orientation — `prog_wf`, Proofs/ProgramP.v — on a
+   display Builder::init accepts: every call returns Ok (exec_all_ok: each per-call result is ROk; a
+   panic would be RPanic, an error RErr), with debug assertions (overflow checks) and without. *)
+Theorem C02_no_panic_no_error : forall c ops st,
+  valid_cfg c (d_opts st) -> madctl_ok st ->
+  (1 <= c_rowcap c)%nat -> (c_rowcap c <= c_blockcap c)%nat -> prog_wf (d_opts st) ops ->
+  exec_all_ok (with_mode c Debug) st ops = true /\ exec_all_ok (with_mode c Release) st ops = true /\
+  exec_all_ok c st ops = true.
+Proof. exact exec_no_panic. Qed.
+
+(* Everything such a program makes the controller write lies inside the configured panel window
+   [ox, ox+w) x [oy, oy+h) of the framebuffer; the controller flags no anomaly (in particular no
+   CASET / RASET beyond the addressable extent under the current MV, no start > end, no pointer wrap);
+   cells outside the window keep whatever they held. *)
+Theorem C02_confined : forall c ops st k,
+  valid_cfg c (d_opts st) -> madctl_ok st -> ctl_matches c (d_opts st) k ->
+  (1 <= c_rowcap c)%nat -> (c_rowcap c <= c_blockcap c)%nat -> prog_wf (d_opts st) ops ->
+  let o := d_opts st in
+  let k' := ctl_run k (exec_trace c st ops) in
+  let ws := spec_prog_writes (c_enc c) (panel_of o) (o_orient o) ops in
+  writes k' = writes k ++ ws /\ Forall (wr_inside o) ws /\ k_flags k' = k_flags k /\
+  forall x y, ~ (o_ox o <= x < o_ox o + o_w o /\ o_oy o <= y < o_oy o + o_h o) -> mem k' x y = mem k x y.
+Proof. exact exec_confined. Qed.
+
+(* draw_iter: pixels outside the logical bounding box are dropped before anything else happens —
+   the call is indistinguishable from the call on the filtered list (no hypothesis at all) ... *)
+Theorem C02_oob_discarded : forall c st (ps : list pixel),
+  step c st (PDrawIter ps) = step c st (PDrawIter (filter (in_bbox (d_opts st)) ps)).
+Proof. exact oob_discarded. Qed.
+
+(* ... the specification says the same ... *)
+Theorem C02_oob_discarded_spec : forall enc p o (ps : list pixel),
+  spec_op_writes enc p o (PDrawIter ps) = spec_op_writes enc p o (PDrawIter (filter (inb p o) ps)).
+Proof. exact oob_discarded_spec. Qed.
+
+(* ... with the same test: Rectangle::contains on the bounding box is 0 <= x < lw /\ 0 <= y < lh ... *)
+Theorem C02_oob_same_test : forall c st (ps : list pixel),
+  valid_cfg c (d_opts st) ->
+  filter (in_bbox (d_opts st)) ps = filter (inb (panel_of (d_opts st)) (o_orient (d_opts st))) ps.
+Proof. exact oob_filter_spec. Qed.
+
+(* ... and a call with nothing in bounds touches neither the bus nor the state *)
+Theorem C02_oob_silent : forall c st (ps : list pixel),
+  filter (in_bbox (d_opts st)) ps = [] -> step c st (PDrawIter ps) = ([], ROk, st).
+Proof. exact oob_silent. Qed.
+
+(* Rectangles are clipped to the bounding box by plain interval arithmetic (vx0 = max rx 0,
+   vx1 = min (rx + rw) lw, ...): one window on the visible part, NOTHING when nothing is visible.
+   No u32 operation overflows, the `as u16` casts are identities — any build profile. *)
+Theorem C02_rect_clip_solid : forall (c : ctx) (o : opts) (a : rect) (lw lh : Z) (col : Z),
+  rect_valid a -> 1 <= lw <= 65535 -> 1 <= lh <= 65535 ->
+  lsize o = (lw, lh) ->
+  fill_solid c o a col =
+  (if visible a lw lh
+   then (wdo _ <- set_address_window c o (vx0 a) (vy0 a) (vx1 a lw - 1) (vy1 a lh - 1);
+         wdo _ <- wemit (write_command WriteMemoryStart);
+         ([ERepeat (c_enc c col) ((vx1 a lw - vx0 a) * (vy1 a lh - vy0 a))], Ok tt))
+   else wret tt).
+Proof. exact fill_solid_clip. Qed.
+
+Theorem C02_rect_clip_contiguous : forall (c : ctx) (o : opts) (a : rect) (lw lh : Z) (cs : list Z),
+  rect_valid a -> 1 <= lw <= 65535 -> 1 <= lh <= 65535 ->
+  lsize o = (lw, lh) -> rw a * rh a < 2 ^ 32 ->
+  fill_contiguous c o a cs =
+  (if visible a lw lh
+   then set_pixels c o (vx0 a) (vy0 a) (vx1 a lw - 1) (vy1 a lh - 1) (clip_colors a lw lh cs)
+   else wret tt).
+Proof. exact fill_contiguous_clip. Qed.
+
+Theorem C02_rect_invisible_silent : forall c st (r : rect),
+  valid_cfg c (d_opts st) -> rect_valid r ->
+  visible r (fst (lsize (d_opts st))) (snd (lsize (d_opts st))) = false ->
+  (forall col, step c st (PFillSolid r col) = ([], ROk, st)) /\
+  (rw r * rh r < 2 ^ 32 -> forall cs, step c st (PFillContig r cs) = ([], ROk, st)).
+Proof. exact fill_invisible_silent. Qed.
+
+(* the visible window is inside the screen *)
+Theorem C02_visible_bounds : forall (a : rect) (lw lh : Z),
+  visible a lw lh = true ->
+  0 <= vx0 a <= vx1 a lw - 1 /\ vx1 a lw - 1 < lw /\
+  0 <= vy0 a <= vy1 a lh - 1 /\ vy1 a lh - 1 < lh.
+Proof. exact visible_bounds. Qed.
+
+(* ---- non-vacuity: 100x50 window at (3,7) of a 240x320 controller, rotated 270 degrees; extreme i32
+   points, a rectangle as large as embedded-graphics allows, one entirely off-screen ---- *)
+Definition ex_c md b := {| c_md := md; c_batch := b; c_fw := 240; c_fh := 320; c_enc := fun v => [v];
+                           c_rowcap := 50; c_blockcap := 100 |}.
+Definition ex_o := {| o_bgr := true; o_orient := {| rotn := D270; mir := false |}; o_inv := false;
+                      o_btt := false; o_rtl := false; o_w := 100; o_h := 50; o_ox := 3; o_oy := 7 |}.
+Definition ex_st := fresh_state ex_o.
+Definition ex_k := ctl_run (power_on 240 320) [ECmd 0x36 [madctl_of_opts ex_o]].
+Definition ex_prog : list pop :=
+  [ PDrawIter [(2147483647, 2147483647, 1); (-2147483648, -2147483648, 2); (49, 99, 3); (50, 0, 4); (0, 100, 5);
+               (-1, 5, 6); (0, 0, 7)];
+    PFillSolid {| rx := -2147483648; ry := -2147483648; rw := 4294967295; rh := 4294967295 |} 8;
+    PFillSolid {| rx := 1000; ry := 1000; rw := 5; rh := 5 |} 9;
+    PFillContig {| rx := 48; ry := 98; rw := 65536; rh := 65535 |} [1; 2; 3];
+    PFillContig {| rx := -70000; ry := 0; rw := 65536; rh := 1 |} [1; 2; 3];
+    PClear 0 ].
+
+Example C02_ex_hyps : forall md b,
+  valid_cfg (ex_c md b) (d_opts ex_st) /\ madctl_ok ex_st /\ ctl_matches (ex_c md b) (d_opts ex_st) ex_k /\
+  (1 <= c_rowcap (ex_c md b))%nat /\ (c_rowcap (ex_c md b) <= c_blockcap (ex_c md b))%nat /\
+  prog_wf (d_opts ex_st) ex_prog.
+Proof.
+  intros md b.
+  split; [unfold valid_cfg; cbn; lia|]. split; [reflexivity|].
+  split; [unfold ctl_matches; vm_compute; repeat split|].
+  split; [cbn; lia|]. split; [cbn; lia|].
+  unfold ex_prog, prog_wf, op_wf, rect_valid, i32. cbn [d_opts ex_st fresh_state lsize ex_o
+    o_orient rotn is_horizontal o_w o_h set_orient rx ry rw rh length].
+  change (2 ^ 31) with 2147483648. change (2 ^ 32) with 4294967296.
+  repeat (split; try lia); repeat constructor; try lia.
+Qed.
+
+(* evaluated in all four builds: all Ok, no anomaly, the history is the specification's: two
+   in-bounds pixels, the full-screen fill, nothing for the off-screen rectangles, the two colours of the
+   clipped stream that fall on screen, the clear *)
+Example C02_ex_run : forall md b,
+  exec_all_ok (ex_c md b) ex_st ex_prog = true /\
+  k_flags (ctl_run ex_k (exec_trace (ex_c md b) ex_st ex_prog)) = [] /\
+  writes (ctl_run ex_k (exec_trace (ex_c md b) ex_st ex_prog)) =
+  spec_prog_writes (fun v => [v]) (panel_of ex_o) (o_orient ex_o) ex_prog.
+Proof. intros [] []; vm_compute; repeat split. Qed.
+
+Example C02_ex_spec :
+  spec_prog_writes (fun v => [v]) (panel_of ex_o) (o_orient ex_o) ex_prog =
+  [ WPx 102 7 [3]; WPx 3 56 [7]; WRect 3 7 102 56 [8];
+    WPx 101 8 [1]; WPx 101 7 [2]; WRect 3 7 102 56 [0] ].
+Proof. vm_compute. reflexivity. Qed.
